@@ -435,6 +435,7 @@ def check(prop: str) -> int:
                             "events": [{k: v for k, v in e.items() if k in ("k", "n", "c", "cmd", "t", "p", "buf", "fault")} for e in events]})
         refinement = {"C07": ("MC_ledger", "spec/Ledger.tla", ["LedgerInv", "Refines", "LedgerStepProps"], 3, 4),
                       "C08": ("MC_ledger", "spec/Ledger.tla", ["LedgerInv", "Refines", "LedgerStepProps"], 3, 4),
+                      "C10": ("MC_presrule", "spec/PresRule.tla", ["RuleInv", "Refines", "RuleStepProps"], 3, 4),
                       "C11": ("MC_idrule", "spec/IdRule.tla", ["RuleInv", "Refines", "RuleStepProps"], 4, 5)}.get(prop)
         if refinement:
             # the reference refines the small rule proved without bounds (TLAPS, spec/proofs; ./check proofs)
